@@ -12,6 +12,9 @@ import e2check
 POLICIES = ['local', 'local-priority-fifo', 'local-priority-lifo', 'static', 'static-priority',
             'abp-priority-fifo', 'abp-priority-lifo']
 PROGS = ['mixed', 'mixed', 'usercb', 'twojoin', 'interrupt', 'jthread', 'basic', 'errors']
+# follow-up C13m: handle operations (move construction/assignment, swap, containers, destruction, jthread moves, a handle
+# moved away under a suspended joiner); `mixed2` draws from all ten scenario kinds
+PROGS_M = ['moves', 'jtmove', 'movejoin', 'handles', 'mixed2']
 
 
 def runs(rng, tier):
@@ -22,6 +25,9 @@ def runs(rng, tier):
                 for k in range(5):
                     out.append([rng.below(1 << 30), rng.choice([0, 100, 300, 500]), rng.choice(PROGS),
                                 rng.choice([12, 24, 40]), f'--pika:threads={th}', f'--pika:scheduler={pol}'])
+                for k in range(2):
+                    out.append([rng.below(1 << 30), rng.choice([0, 100, 300, 500]), rng.choice(PROGS_M),
+                                rng.choice([12, 24, 40]), f'--pika:threads={th}', f'--pika:scheduler={pol}'])
     else:
         for i, pol in enumerate(POLICIES):
             for k, th in enumerate((1, 4) if i % 2 == 0 else (2, 8)):
@@ -30,12 +36,16 @@ def runs(rng, tier):
                                 f'--pika:threads={th}', f'--pika:scheduler={pol}'])
         out.append([rng.below(1 << 30), 300, 'usercb', 12, '--pika:threads=4', '--pika:scheduler=local-priority-fifo'])
         out.append([rng.below(1 << 30), 300, 'twojoin', 12, '--pika:threads=3', '--pika:scheduler=local-priority-fifo'])
+        for i, pol in enumerate(POLICIES):
+            out.append([rng.below(1 << 30), rng.choice([0, 200, 400]), PROGS_M[i % len(PROGS_M)], rng.choice([8, 16]),
+                        f'--pika:threads={(1, 2, 3, 4, 8)[i % 5]}', f'--pika:scheduler={pol}'])
+        out.append([rng.below(1 << 30), 300, 'handles', 12, '--pika:threads=4', '--pika:scheduler=local-priority-fifo'])
     return out
 
 
 def extra_runs(rng, tier):
     return [[rng.below(1 << 30), 400, prog, 24, f'--pika:threads={th}', '--pika:scheduler=local-priority-fifo']
-            for prog in ('usercb', 'twojoin', 'mixed', 'interrupt') for th in (2, 4, 8)]
+            for prog in ('usercb', 'twojoin', 'mixed', 'interrupt', 'handles') for th in (2, 4, 8)]
 
 
 def nontrivial(raw):
@@ -44,7 +54,8 @@ def nontrivial(raw):
 
 
 def stats(raw):
-    d = {k: raw.count(' ' + k + ' ') for k in ('jn.lock', 'jn.woke', 'jn.err', 'jn.done', 'jn.resume', 'ec.take', 'x.cb', 'jn.interrupted', 'jt.joined', 'jn.detach')}
+    d = {k: raw.count(' ' + k + ' ') for k in ('jn.lock', 'jn.woke', 'jn.err', 'jn.done', 'jn.resume', 'ec.take', 'x.cb', 'jn.interrupted', 'jt.joined', 'jn.detach',
+                                                       'jn.mvctor', 'jn.mvassign', 'jn.swap', 'jn.dtor', 'jt.skip', 'jn.dtorterm', 'jn.mvterm')}
     lines = raw.split('\n')
     d['add_refused'] = sum(1 for l in lines if ' ec.add ' in l and not l.endswith(' 1'))
     d['add_accepted'] = sum(1 for l in lines if ' ec.add ' in l and l.endswith(' 1'))
@@ -69,11 +80,21 @@ def stats(raw):
     return d
 
 
+# directed reproductions of the listed findings (run only while the finding is listed in known_findings.txt)
+FINDING_RUNS = {
+    'shared-priority-thread-not-joinable': [[877833741, 0, 'errors', 8, '--pika:threads=8', '--pika:scheduler=shared-priority']],
+    # std::terminate: the directed run dies, which is the finding (the alternative signature is valid for this run only)
+    'yield-noexcept-interruption': [([1, 0, 'yieldintr', 4, '--pika:threads=2'], "crash rc=N"), ([2, 0, 'yieldintr', 4, '--pika:threads=2'], "crash rc=N")],
+    'interrupted-join-stale-callback': [[1, 0, 'joinintr', 1, '--pika:threads=3'], [2, 0, 'joinintr', 1, '--pika:threads=3']],
+}
+
 e2check.run(dict(
-    prop='C13', model='join', harness='e2/join.cpp', bin='e2_join', props=['C13'],
+    finding_runs=FINDING_RUNS,
+    prop='C13', model='join', harness='e2/join.cpp', bin='e2_join', props=['C13', 'C13m'],
     runs=runs, extra_runs=extra_runs, nontrivial=nontrivial, stats=stats, par=3, timeout_s=900,
-    rule='generated scenarios on the live runtime (thread bodies: immediate, yielding, long running, blocking on a semaphore, spawning and joining further threads; joiners on other tasks after random delays; double join, join after detach, self join; user exit callbacks registered through add_thread_exit_callback while the target exits; two concurrent joiners of one handle; interrupt() against bodies with enabled/disabled interruption sections and a bystander; jthread destructors at random times) for every scheduling policy and several worker counts, with PRNG timing perturbation at the instrumented sites (join window, exit-callback window); non-trivial = at least one joiner was suspended and woken by an exit callback; distinct = distinct argv',
+    rule='generated scenarios on the live runtime (thread bodies: immediate, yielding, long running, blocking on a semaphore, spawning and joining further threads; joiners on other tasks after random delays; double join, join after detach, self join; user exit callbacks registered through add_thread_exit_callback while the target exits; two concurrent joiners of one handle; handle operations: move construction / move assignment / swap / vectors of handles / re-binding a joined handle / jthread moves / a handle moved away while another task is suspended in join on it, every destructor logged; interrupt() against bodies with enabled/disabled interruption sections and a bystander; jthread destructors at random times) for every scheduling policy and several worker counts, with PRNG timing perturbation at the instrumented sites (join window, exit-callback window); non-trivial = at least one joiner was suspended and woken by an exit callback; distinct = distinct argv',
     assumptions=['wake-up of a suspended joiner is modelled with wake-up tokens (agent contract; C02 covers the scheduler side); the acceptor checks on every run that a joiner only wakes after a resume_thread aimed at it',
-                 'move construction/assignment and swap of thread handles, and interruption of a task while it is suspended inside join, are outside the model (the harness does not produce them; the acceptor would reject such logs)',
+                 'interruption of a task while it is suspended inside join is outside the main model (the default programs do not produce it; the acceptor would reject such logs): the code as it is leaves the exit callback of an interrupted join registered, which can release a later join early - finding interrupted-join-stale-callback, model IJ in Props/C13m.lean with the machine-checked counterexample, directed program `e2_join 1 0 joinintr 1 --pika:threads=3`',
+                 'concurrent moves of the same two handles in opposite directions and self move-assignment / self swap (both lock two spinlocks in argument order) are not generated',
                  'this_thread::yield() is declared noexcept although it is an interruption point: a delivered interruption there calls std::terminate (finding, notes/C13.md); interruptible harness bodies suspend through this_thread::suspend'],
 ))
